@@ -114,7 +114,9 @@ def case_st(draw, with_fault=True):
             fault = {"kind": "nth", "n": draw(st.integers(1, 4)),
                      "errno": draw(st.sampled_from(["EIO", "ENOSPC", "EACCES", "EROFS"]))}
     return {"tree": spec, "cfg": cfg, "req": draw(request_st(spec)), "fault": fault,
-            "through": draw(st.sampled_from(["handler", "handler", "protocol"]))}
+            "through": draw(st.sampled_from(["handler", "handler", "protocol"])),
+            # protocol path only: a middleware chain in front of the upload handler and its verdict
+            "chain": draw(st.sampled_from([None, None, "allow", "deny", "deny-none", "raise"]))}
 
 
 def make_handler(cfg, updir):
@@ -188,7 +190,12 @@ def run_case(case: dict):
                     sim = srvsim.Sim(loop)
                     h = srvsim.build_handler(sim, {"kind": "value", "status": 20, "meta": "text/gemini", "body": "x"})
                     tr = FakeTransport(loop)
-                    proto = GeminiServerProtocol(h, None, handler)
+                    chain = None
+                    if case.get("chain"):
+                        spec_ = {"allow": {"kind": "allow"}, "deny": {"kind": "deny", "response": "53 Access denied\r\n"},
+                                 "deny-none": {"kind": "deny-none"}, "raise": {"kind": "raise", "exc": "RuntimeError"}}[case["chain"]]
+                        chain = srvsim.build_middleware(sim, [{"kind": "allow", "gate": False}, {**spec_, "gate": False}])
+                    proto = GeminiServerProtocol(h, chain, handler)
                     tr.attach(proto)
                     data = line.encode() + b"\r\n" + content + b"EXTRA-BYTES-BEYOND-SIZE"
                     mode = (len(content) + len(line)) % 3
@@ -241,6 +248,7 @@ def run_case(case: dict):
             "size": req["size"] <= (cfg["max_size"] if cfg["max_size"] is not None else 10 * 1024 * 1024),
             "mime": cfg["types"] is None or ("text/gemini" if req["mime"] is None else req["mime"].strip()) in cfg["types"],
             "delete": req["size"] != 0 or cfg["delete"],
+            "chain": not (case["through"] == "protocol" and case.get("chain") in ("deny", "deny-none", "raise")),
         }
         info["pre"] = "".join(k[0] if v else "-" for k, v in pre.items())
         if gone_dirs:
